@@ -114,6 +114,15 @@ def main():
     t0 = time.time()
     spec = P.PROPS[prop]
 
+    if not args.replay:
+        # replay files of earlier runs of this property are stale
+        rd = os.path.join(ROOT, "replays", prop)
+        if os.path.isdir(rd):
+            for fn in os.listdir(rd):
+                try:
+                    os.remove(os.path.join(rd, fn))
+                except OSError:
+                    pass
     proof = check_proofs(prop)
     hyg = hygiene()
     import mwh
